@@ -51,7 +51,7 @@ REQUIRED = [
 ]
 MIN_COUNTERS = {
     "lookups_traced": 5000, "answered_by:globals": 1000, "answered_by:block": 1000, "answered_by:locals": 100, "filters_traced": 500, "tags_traced": 2000,
-    "global_lookups_judged": 800, "partial_visited_from_several_scopes": 200,
+    "global_lookups_judged": 800, "partial_visited_from_several_scopes": 200, "global_lookups_judged_before_a_later_assignment": 30,
 }
 ASSUMPTIONS = [
     "a root lookup is attributed to the first leaf mapping of the context's scope chain that contains the name; mappings pushed by "
@@ -251,6 +251,27 @@ def block_bound_names(sources: dict[str, str]) -> set[str]:
     return out
 
 
+_ASSIGN_AT = re.compile(r"\b(assign|capture|increment|decrement)\s+([A-Za-z_][\w-]*)")
+
+
+def assign_effects(source: str) -> dict[str, list[int]]:
+    """name -> source positions from which an assignment to it is in effect (the end of the assigning tag / line, the endcapture)."""
+    out: dict[str, list[int]] = {}
+    liquid_regions = [(m.start(), m.end()) for m in re.finditer(r"\{%-?\s*liquid\b.*?%\}", source, re.S)]
+    for m in _ASSIGN_AT.finditer(source):
+        kind, name = m.group(1), m.group(2)
+        if kind == "capture":
+            e = source.find("endcapture", m.end())
+        else:
+            e = source.find("%}", m.end())
+            if any(a <= m.start() < b for a, b in liquid_regions):
+                nl = source.find("\n", m.end())
+                if nl != -1 and (e == -1 or nl < e):
+                    e = nl
+        out.setdefault(name, []).append(e if e != -1 else len(source))
+    return out
+
+
 def root_key(loc: tuple) -> str:
     """The key static analysis files a variable under: str() of its first segment."""
     head = loc[0]
@@ -286,6 +307,7 @@ def judge(ctx: core.Ctx, case: dict[str, Any]) -> None:
     rep_filters = set(an.filters)
     rep_tags = set(an.tags)
     assigned = assigned_names(sources)
+    effects = {t: assign_effects(src) for t, src in sources.items()}
     # a macro body is isolated at run time but lies lexically inside whatever blocks surround its definition: a name bound by an
     # enclosing with / for is "inside a block binding that name" in the property's (lexical) sense although the globals answer it
     has_macro = any(re.search(r"\{%-?\s*macro\b", s) for s in sources.values())
@@ -318,8 +340,17 @@ def judge(ctx: core.Ctx, case: dict[str, Any]) -> None:
                 globals_hit += 1
                 root = loc[0]
                 if root in assigned:
-                    ctx.count("global_lookup_of_a_name_assigned_somewhere_exempt")
-                    continue
+                    # "preceded in source order by an assignment to it": decided in the reference's own template by positions (an assignment
+                    # takes effect at the end of its tag, so `assign n = n | plus: 1` reads n *before* assigning it); an assignment in any
+                    # other template of the set exempts the name conservatively (include shares its caller's scope)
+                    # (a partial may be included several times: an assignment made by an earlier inclusion precedes a later one, so inside
+                    # partials any assignment to the name anywhere exempts it; positions are only compared in the main template)
+                    elsewhere = any(root in eff for t, eff in effects.items() if t != tname) or tname != "main"
+                    before = any(p <= index for p in effects.get(tname, {}).get(root, []))
+                    if elsewhere or before or not isinstance(index, int):
+                        ctx.count("global_lookup_of_a_name_assigned_earlier_or_elsewhere_exempt")
+                        continue
+                    ctx.count("global_lookups_judged_before_a_later_assignment")
                 if root in lexically_bound:
                     ctx.count("global_lookup_of_a_name_bound_by_a_block_in_a_set_with_macros_exempt")
                     continue
@@ -362,6 +393,8 @@ def partial_body(rng) -> str:
         reads.append(rng.choice([
             "{{ @ }}", "{{ @.x }}", "{{ @ | upcase }}", "{% if @ %}y{% endif %}", "{{ d[@] }}", "{{ @.x[b] }}", "{% for q in @ %}{{ q }}{% endfor %}", "{{ @ | default: c }}",
             "{% echo @ | append: k %}", "{% case @ %}{% when b %}w{% endcase %}", "{{ ['@'] }}", "{% liquid\n echo @\n%}", "{% unless @ == k %}u{% endunless %}",
+            "{% assign @ = @ | append: 'x' %}{{ @ }}", "{% assign @ = @.x %}", "{% liquid\n assign @ = @ | default: k\n echo @\n%}", "{% capture @ %}[{{ @ }}]{% endcapture %}{{ @ }}",
+            "{% for q in xs %}{{ @ }}{% assign @ = q %}{% endfor %}",
         ]).replace("@", n))
     if rng.random() < 0.3:
         n = rng.choice(NAMES)
@@ -415,8 +448,11 @@ def gen_matrix(rng) -> dict[str, Any]:
         pn = rng.choice(names)
         tag = rng.choice(["include", "render"])
         calls.append(call_site(rng, pn, tag))
-        if rng.random() < 0.2:
-            calls.append(rng.choice(["{% assign z1 = 1 %}", "{{ " + rng.choice(NAMES) + " }}", "{% assign " + rng.choice(["a", "zz"]) + " = 2 %}"]))
+        if rng.random() < 0.35:
+            n = rng.choice(NAMES)
+            calls.append(rng.choice(["{% assign z1 = 1 %}", "{{ " + n + " }}", "{% assign " + rng.choice(["a", "zz"]) + " = 2 %}", "{% assign @ = @ | append: 'x' %}{{ @ }}".replace("@", n),
+                                     "{% capture @ %}[{{ @.x }}]{% endcapture %}".replace("@", n), "{% liquid\n assign @ = @ | default: k\n echo @\n%}".replace("@", n),
+                                     "{% for z in xs %}{{ @ }}{% assign @ = z %}{% endfor %}".replace("@", n)]))
     # q may include p through `include`; a `render`ed q must not (include is disabled there)
     main = "".join(calls)
     if "include 'p'" in partials.get("q", "") and "render 'q'" in main:
